@@ -30,6 +30,7 @@ def main():
                 shutil.copy(os.path.join(root, f), dst); demos.append(dst)
         seedroot = os.path.dirname(os.path.dirname(os.path.abspath(src)))
         cmd = meta["demo_cmd"].replace("$PWD", wt).replace(seedroot, wt).replace("<worktree>", wt).replace("<repo>", wt)
+        cmd = re.split(r"\s{2,}\(", cmd)[0]          # some agents append prose in parentheses after the command
         rc0, o0 = sh(cmd, cwd=wt)
         out["demo_without_patch"] = "pass" if rc0 == 0 else "FAIL"
         if rc0 != 0:
